@@ -169,9 +169,14 @@ Exceptions (such as ``-=``, which uses the aggregator :hy:func:`+
 
 (defn comp-op [op a1 a-rest]
   "Helper for shadow comparison operators"
-  (if a-rest
-    (and #* (gfor #(x y) (zip (+ #(a1) a-rest) a-rest) (op x y)))
-    True))
+  ; Stop at the first false comparison, as Python's chained comparison
+  ; does, and return its result.
+  (setv r True)
+  (for [#(x y) (zip (+ #(a1) a-rest) a-rest)]
+    (setv r (op x y))
+    (when (not r)
+      (break)))
+  r)
 (defop < [a1 #* a-rest]
   ["less-than" :unary "True"]
   (comp-op operator.lt a1 a-rest))
